@@ -197,7 +197,10 @@ type GenOpt struct {
 	Texts      []string
 	MultiVals  bool
 	FirstChord bool // first instance is a chord
+	BigVals    bool // include very long durations (tracks idle for > 65536 ticks; totals stay far below 2^28)
 }
+
+var bigFracPool = []Frac{{70, 1}, {137, 1}, {1000, 3}, {69, 1}, {300, 7}, {2049, 2}}
 
 var fracPool = []Frac{{1, 1}, {2, 1}, {1, 2}, {1, 3}, {2, 3}, {3, 7}, {5, 4}, {1, 4}, {3, 4}, {1, 8}, {7, 8}, {1, 6}, {5, 6}, {1, 16}, {3, 16},
 	{1, 5}, {4, 5}, {1, 9}, {1, 12}, {1, 32}, {1, 64}, {7, 960}, {3, 1}, {4, 1}, {1, 7}, {9, 8}, {11, 12}, {13, 64}}
@@ -233,6 +236,10 @@ func randomDoc(rng *rand.Rand, o GenOpt) Doc {
 				k = 2 + rng.Intn(2)
 			}
 			for j := 0; j < k; j++ {
+				if o.BigVals && rng.Intn(6) == 0 {
+					in.Vals = append(in.Vals, bigFracPool[rng.Intn(len(bigFracPool))])
+					continue
+				}
 				in.Vals = append(in.Vals, fracPool[rng.Intn(len(fracPool))])
 			}
 		} else {
